@@ -40,7 +40,8 @@ EXTRA_MODULES = {
     "C18": ["Proofs.C18"],
     "C19": ["Proofs.C19", "Proofs.E2ESpell", "Proofs.E2ELex", "Proofs.E2EToken", "Proofs.E2EUnits", "Proofs.E2EScan", "Proofs.E2ECompile",
             "Proofs.E2EEquiv"],
-    "C01": ["Proofs.C01", "Proofs.NoPanic", "Proofs.StdNoPanic", "Proofs.ArrNoPanic", "Proofs.JsonFilter"],
+    "C01": ["Proofs.C01", "Proofs.NoPanic", "Proofs.StdNoPanic", "Proofs.ArrNoPanic", "Proofs.JsonFilter", "Proofs.DateFilter"],
+    "C17": ["Proofs.DateFilter"],
     "C02": ["Proofs.C02", "Proofs.JsonFilter"],
     "C03": ["Proofs.C03"],
     "C20": ["Proofs.C20", "Proofs.C20Source", "Proofs.ProgLemmas", "Proofs.RenderStops"],
